@@ -1134,6 +1134,22 @@ pub fn corr_line(sess: &Session, full: bool) -> Option<(String, String)> {
         delivered_before += r.produced.len();
     }
     if ops.len() > 60000 { return None; }
+    // run-level summary (compared with `BV.Stream.run` over the whole line)
+    if !sess.recs.iter().any(|r| r.panicked) {
+        let mut h: u32 = 2166136261;
+        for b in sess.delivered.iter() { h = (h ^ (*b as u32)).wrapping_mul(16777619); }
+        let mut nreq = 0usize;
+        let mut closed = String::new();
+        let (mut nd, mut nm) = (0usize, 0usize);
+        for r in &sess.recs {
+            if let Call::Stream { op, .. } = &r.call {
+                for e in &r.events { nreq += 1; closed.push(if e.lf_after == e.input_pos || e.site == 2 { '1' } else { '0' }); }
+                if *op == OP_METADATA { nm += r.consumed } else { nd += r.consumed }
+            }
+        }
+        if closed.is_empty() { closed.push('-'); }
+        ans.push(format!("R:{}:{}:{}:{}:{}:{}", sess.delivered.len(), if full { h.to_string() } else { "-".into() }, nreq, closed, nd, nm));
+    }
     Some((ops, ans.join(" ")))
 }
 
